@@ -20,96 +20,87 @@ const buildKey = "internal/metrics.buildLabelValueKey"
 type encTerm struct {
 	kind  string      // "lit", "elem", "lenprefix", "quote"
 	lit   string      // for lit
-	steps [][2]string // for elem: ReplaceAll(old,new) chain, applied in order
+	steps [][2]string // for elem: ReplaceAll(old,new) chain, applied in order (simul: one strings.Replacer pass)
+	simul bool
 }
 
-// extractEncoder recognises buildLabelValueKey as `for each element: write terms`.
+// extractEncoder recognises buildLabelValueKey as `for each element: write
+// terms` by symbolic evaluation of its body: one loop over the tuple (range or
+// index form, bound written either way round or hoisted into a local), whose
+// body assigns string expressions to locals and writes them to one
+// accumulator (a strings.Builder/bytes.Buffer through WriteString/WriteByte/
+// WriteRune, or a string through +=); string expressions are constants, the
+// element, +, strings.ReplaceAll, strings.NewReplacer(…).Replace,
+// strconv.Quote, strconv.Itoa(len(elem)) and calls of same-package helpers
+// made of such assignments and a return, which are followed.  Outside the
+// loop only declarations, constant writes, Grow and loops that compute a
+// number are accepted.
 func extractEncoder(f *core.Func) (terms []encTerm, why string) {
 	info := f.Info()
-	if len(f.Type.Params.List) != 1 {
+	if len(f.Type.Params.List) != 1 || len(f.Type.Params.List[0].Names) != 1 {
 		return nil, "unexpected parameters"
 	}
 	labels := info.Defs[f.Type.Params.List[0].Names[0]]
-	var loop ast.Stmt
-	var body *ast.BlockStmt
-	var elemIs func(e ast.Expr) bool
-	for _, st := range f.Body.List {
-		switch s := st.(type) {
-		case *ast.ForStmt:
-			loop, body = s, s.Body
-			// for i := 0; i < len(labels); i++
-			var iv types.Object
-			if as, ok := s.Init.(*ast.AssignStmt); ok && len(as.Lhs) == 1 {
-				iv = identObj(info, as.Lhs[0])
-				if v, ok := constInt(info, as.Rhs[0]); !ok || v != 0 {
-					return nil, "loop does not start at 0"
-				}
-			}
-			cond := nospace(exprStr(s.Cond))
-			if iv == nil || cond != iv.Name()+"<len("+labels.Name()+")" {
-				return nil, "loop bound is not i < len(labels): " + cond
-			}
-			if inc, ok := s.Post.(*ast.IncDecStmt); !ok || inc.Tok != token.INC {
-				return nil, "loop step is not i++"
-			}
-			elemIs = func(e ast.Expr) bool {
-				ix, ok := core.Unparen(e).(*ast.IndexExpr)
-				return ok && identObj(info, ix.X) == labels && identObj(info, ix.Index) == iv
-			}
-		case *ast.RangeStmt:
-			loop, body = s, s.Body
-			if identObj(info, s.X) != labels || s.Value == nil {
-				return nil, "range is not over the labels with a value variable"
-			}
-			vv := identObj(info, s.Value)
-			elemIs = func(e ast.Expr) bool { return identObj(info, e) == vv && vv != nil }
+	isString := func(t types.Type) bool {
+		b, ok := t.Underlying().(*types.Basic)
+		return ok && b.Info()&types.IsString != 0
+	}
+	isBuilder := func(t types.Type) bool {
+		if p, ok := t.(*types.Pointer); ok {
+			t = p.Elem()
 		}
+		s := t.String()
+		return s == "strings.Builder" || s == "bytes.Buffer"
 	}
-	if loop == nil {
-		return nil, "no loop over the labels"
+	isLenLabels := func(e ast.Expr) bool {
+		call, ok := core.Unparen(e).(*ast.CallExpr)
+		return ok && f.CalleeID(call) == "builtin.len" && len(call.Args) == 1 && identObj(info, call.Args[0]) == labels
 	}
-	// statements outside the loop may only declare the builder and return its string
-	for _, st := range f.Body.List {
-		switch s := st.(type) {
-		case *ast.DeclStmt, *ast.ForStmt, *ast.RangeStmt:
-		case *ast.ReturnStmt:
-			r := nospace(exprStr(s.Results[0]))
-			if !strings.HasSuffix(r, ".String()") {
-				return nil, "result is not the builder's string: " + r
-			}
-		case *ast.AssignStmt:
-			// allow `var`-like initialisations of the builder
-		default:
-			return nil, "unrecognised statement outside the loop"
-		}
-	}
-	env := map[types.Object][]encTerm{}
-	var evalStr func(e ast.Expr) ([]encTerm, string)
-	evalStr = func(e ast.Expr) ([]encTerm, string) {
-		e = core.Unparen(e)
-		if tv, ok := info.Types[e]; ok && tv.Value != nil {
+	lenAlias := map[types.Object]bool{}
+	written := map[types.Object][]encTerm{} // per accumulator: the per-element terms
+	isAcc := map[types.Object]bool{}
+	constStr := func(e ast.Expr) (string, bool) {
+		if tv, ok := info.Types[core.Unparen(e)]; ok && tv.Value != nil && isString(tv.Type) {
 			s, err := strconv.Unquote(tv.Value.ExactString())
-			if err != nil {
-				return nil, "constant not a string"
+			return s, err == nil
+		}
+		return "", false
+	}
+	constChar := func(e ast.Expr) (string, bool) {
+		if v, ok := constInt(info, core.Unparen(e)); ok && v >= 0 && v < 0x110000 {
+			if v < 0x80 {
+				return string([]byte{byte(v)}), true
+			}
+			return string(rune(v)), true
+		}
+		return "", false
+	}
+	var elemIs func(e ast.Expr) bool
+	var evalStr func(e ast.Expr, env map[types.Object][]encTerm, depth int) ([]encTerm, string)
+	evalStr = func(e ast.Expr, env map[types.Object][]encTerm, depth int) ([]encTerm, string) {
+		e = core.Unparen(e)
+		if s, ok := constStr(e); ok {
+			if s == "" {
+				return []encTerm{}, ""
 			}
 			return []encTerm{{kind: "lit", lit: s}}, ""
-		}
-		if elemIs(e) {
-			return []encTerm{{kind: "elem"}}, ""
 		}
 		if o := identObj(info, e); o != nil {
 			if t, ok := env[o]; ok {
 				return t, ""
 			}
 		}
+		if depth == 0 && elemIs != nil && elemIs(e) {
+			return []encTerm{{kind: "elem"}}, ""
+		}
 		switch x := e.(type) {
 		case *ast.BinaryExpr:
 			if x.Op == token.ADD {
-				l, w := evalStr(x.X)
+				l, w := evalStr(x.X, env, depth)
 				if w != "" {
 					return nil, w
 				}
-				r, w := evalStr(x.Y)
+				r, w := evalStr(x.Y, env, depth)
 				if w != "" {
 					return nil, w
 				}
@@ -118,69 +109,432 @@ func extractEncoder(f *core.Func) (terms []encTerm, why string) {
 		case *ast.CallExpr:
 			switch f.CalleeID(x) {
 			case "strings.ReplaceAll":
-				in, w := evalStr(x.Args[0])
+				in, w := evalStr(x.Args[0], env, depth)
 				if w != "" {
 					return nil, w
 				}
-				if len(in) != 1 || in[0].kind != "elem" {
+				if len(in) != 1 || in[0].kind != "elem" || in[0].simul {
 					return nil, "ReplaceAll applied to something other than the element"
 				}
-				o, w1 := evalStr(x.Args[1])
-				n, w2 := evalStr(x.Args[2])
-				if w1 != "" || w2 != "" || len(o) != 1 || len(n) != 1 || o[0].kind != "lit" || n[0].kind != "lit" {
+				o, ok1 := constStr(x.Args[1])
+				n, ok2 := constStr(x.Args[2])
+				if !ok1 || !ok2 {
 					return nil, "ReplaceAll with non-constant arguments"
 				}
-				t := encTerm{kind: "elem", steps: append(append([][2]string{}, in[0].steps...), [2]string{o[0].lit, n[0].lit})}
+				t := encTerm{kind: "elem", steps: append(append([][2]string{}, in[0].steps...), [2]string{o, n})}
+				return []encTerm{t}, ""
+			case "strings.(*Replacer).Replace":
+				in, w := evalStr(x.Args[0], env, depth)
+				if w != "" {
+					return nil, w
+				}
+				if len(in) != 1 || in[0].kind != "elem" || len(in[0].steps) != 0 {
+					return nil, "Replacer applied to something other than the plain element"
+				}
+				var nr *ast.CallExpr
+				if r := core.RecvExpr(x); r != nil {
+					nr, _ = mxResolveAt(f, r, x).(*ast.CallExpr)
+				}
+				if nr == nil || f.CalleeID(nr) != "strings.NewReplacer" || len(nr.Args)%2 != 0 || nr.Ellipsis.IsValid() {
+					return nil, "Replacer not built by strings.NewReplacer with constant pairs"
+				}
+				t := encTerm{kind: "elem", simul: true}
+				seen := map[string]bool{}
+				for i := 0; i < len(nr.Args); i += 2 {
+					o, ok1 := constStr(nr.Args[i])
+					n, ok2 := constStr(nr.Args[i+1])
+					if !ok1 || !ok2 || len(o) != 1 || seen[o] {
+						return nil, "Replacer pairs are not distinct single-byte constants"
+					}
+					seen[o] = true
+					t.steps = append(t.steps, [2]string{o, n})
+				}
 				return []encTerm{t}, ""
 			case "strconv.Quote":
-				in, w := evalStr(x.Args[0])
+				in, w := evalStr(x.Args[0], env, depth)
 				if w != "" || len(in) != 1 || in[0].kind != "elem" || len(in[0].steps) != 0 {
 					return nil, "Quote of something other than the plain element"
 				}
 				return []encTerm{{kind: "quote"}}, ""
 			case "strconv.Itoa":
-				if lc, ok := core.Unparen(x.Args[0]).(*ast.CallExpr); ok && f.CalleeID(lc) == "builtin.len" && elemIs(lc.Args[0]) {
-					return []encTerm{{kind: "lenprefix"}}, ""
+				if lc, ok := core.Unparen(x.Args[0]).(*ast.CallExpr); ok && f.CalleeID(lc) == "builtin.len" && len(lc.Args) == 1 {
+					if in, w := evalStr(lc.Args[0], env, depth); w == "" && len(in) == 1 && in[0].kind == "elem" && len(in[0].steps) == 0 {
+						return []encTerm{{kind: "lenprefix"}}, ""
+					}
 				}
+			default:
+				// a helper of the same package: bind its parameters and evaluate its body
+				h := f.CalleeFunc(x)
+				if h == nil || h.Pkg != f.Pkg || h == f || depth > 3 || x.Ellipsis.IsValid() {
+					break
+				}
+				env2 := map[types.Object][]encTerm{}
+				i := 0
+				for _, fl := range h.Type.Params.List {
+					if len(fl.Names) == 0 {
+						return nil, "helper " + h.Key + " has unnamed parameters"
+					}
+					for _, nm := range fl.Names {
+						if i >= len(x.Args) {
+							return nil, "helper call with too few arguments"
+						}
+						if isString(info.TypeOf(x.Args[i])) {
+							t, w := evalStr(x.Args[i], env, depth)
+							if w != "" {
+								return nil, w
+							}
+							env2[info.Defs[nm]] = t
+						}
+						i++
+					}
+				}
+				for k, st := range h.Body.List {
+					switch s := st.(type) {
+					case *ast.AssignStmt:
+						if len(s.Lhs) != 1 || len(s.Rhs) != 1 || (s.Tok != token.DEFINE && s.Tok != token.ASSIGN) {
+							return nil, "unrecognised assignment in helper " + h.Key
+						}
+						t, w := evalStr(s.Rhs[0], env2, depth+1)
+						if w != "" {
+							return nil, w
+						}
+						env2[identObj(info, s.Lhs[0])] = t
+					case *ast.ReturnStmt:
+						if k != len(h.Body.List)-1 || len(s.Results) != 1 {
+							return nil, "helper " + h.Key + " does not end in a single return"
+						}
+						return evalStr(s.Results[0], env2, depth+1)
+					default:
+						return nil, "helper " + h.Key + " contains control flow"
+					}
+				}
+				return nil, "helper " + h.Key + " has no return"
 			}
 		}
 		return nil, "unrecognised string expression " + exprStr(e)
 	}
-	for _, st := range body.List {
+	// accumulator writes
+	accWrite := func(call *ast.CallExpr, env map[types.Object][]encTerm) (obj types.Object, t []encTerm, handled bool, w string) {
+		id := f.CalleeID(call)
+		r := core.RecvExpr(call)
+		if r == nil {
+			return nil, nil, false, ""
+		}
+		if u, ok := core.Unparen(r).(*ast.UnaryExpr); ok && u.Op == token.AND {
+			r = u.X
+		}
+		obj = identObj(info, r)
+		if obj == nil || !isAcc[obj] {
+			return nil, nil, false, ""
+		}
+		switch id {
+		case "strings.(*Builder).WriteString", "bytes.(*Buffer).WriteString":
+			t, w = evalStr(call.Args[0], env, 0)
+			return obj, t, true, w
+		case "strings.(*Builder).WriteByte", "bytes.(*Buffer).WriteByte", "strings.(*Builder).WriteRune", "bytes.(*Buffer).WriteRune":
+			if s, ok := constChar(call.Args[0]); ok {
+				return obj, []encTerm{{kind: "lit", lit: s}}, true, ""
+			}
+			return obj, nil, true, "a non-constant byte is written"
+		case "strings.(*Builder).Grow", "bytes.(*Buffer).Grow":
+			return obj, nil, true, ""
+		}
+		return obj, nil, true, "unrecognised call on the accumulator: " + id
+	}
+	numericOnly := func(body *ast.BlockStmt) bool {
+		ok := true
+		ast.Inspect(body, func(n ast.Node) bool {
+			switch s := n.(type) {
+			case *ast.AssignStmt:
+				for _, l := range s.Lhs {
+					o := identObj(info, l)
+					if o == nil || isAcc[o] || isString(o.Type()) {
+						ok = false
+					}
+				}
+			case *ast.CallExpr:
+				if id := f.CalleeID(s); id != "builtin.len" {
+					ok = false
+				}
+			case *ast.IncDecStmt, *ast.BlockStmt, *ast.ExprStmt, *ast.Ident, *ast.BasicLit, *ast.BinaryExpr, *ast.ParenExpr, *ast.IndexExpr:
+			case nil:
+			default:
+				ok = false
+			}
+			return ok
+		})
+		return ok
+	}
+	define := func(nm ast.Expr, rhs ast.Expr) string {
+		o := identObj(info, nm)
+		if o == nil {
+			return "unrecognised definition outside the loop"
+		}
+		if isAcc[o] {
+			return "the accumulator " + o.Name() + " is assigned again outside the loop"
+		}
+		switch {
+		case isBuilder(o.Type()):
+			isAcc[o] = true
+		case isString(o.Type()):
+			if rhs != nil {
+				if s, ok := constStr(rhs); !ok || s != "" {
+					return "a string variable outside the loop does not start empty"
+				}
+			}
+			isAcc[o] = true
+		case rhs != nil && isLenLabels(rhs):
+			lenAlias[o] = true
+		case o.Type().String() == "*strings.Replacer":
+			// followed to its strings.NewReplacer call where it is used
+		default:
+			if b, ok := o.Type().Underlying().(*types.Basic); !ok || b.Info()&types.IsInteger == 0 {
+				return "unrecognised variable outside the loop: " + o.Name()
+			}
+		}
+		return ""
+	}
+	loopSeen := false
+	var result types.Object
+	for k, st := range f.Body.List {
+		if result != nil {
+			return nil, "statements after the return"
+		}
 		switch s := st.(type) {
+		case *ast.DeclStmt:
+			gd, ok := s.Decl.(*ast.GenDecl)
+			if !ok || gd.Tok != token.VAR {
+				return nil, "unrecognised declaration outside the loop"
+			}
+			for _, sp := range gd.Specs {
+				vs := sp.(*ast.ValueSpec)
+				for i, nm := range vs.Names {
+					var rhs ast.Expr
+					if len(vs.Values) == len(vs.Names) {
+						rhs = vs.Values[i]
+					} else if len(vs.Values) != 0 {
+						return nil, "unrecognised declaration outside the loop"
+					}
+					if w := define(nm, rhs); w != "" {
+						return nil, w
+					}
+				}
+			}
 		case *ast.AssignStmt:
-			if len(s.Lhs) != 1 || len(s.Rhs) != 1 {
-				return nil, "unrecognised assignment"
+			if len(s.Lhs) != len(s.Rhs) || (s.Tok != token.DEFINE && s.Tok != token.ASSIGN) {
+				return nil, "unrecognised assignment outside the loop"
 			}
-			t, w := evalStr(s.Rhs[0])
-			if w != "" {
-				return nil, w
+			for i := range s.Lhs {
+				if w := define(s.Lhs[i], s.Rhs[i]); w != "" {
+					return nil, w
+				}
 			}
-			env[identObj(info, s.Lhs[0])] = t
 		case *ast.ExprStmt:
 			call, ok := s.X.(*ast.CallExpr)
 			if !ok {
-				return nil, "unrecognised statement in the loop"
+				return nil, "unrecognised statement outside the loop"
 			}
-			id := f.CalleeID(call)
-			if id != "strings.(*Builder).WriteString" && id != "bytes.(*Buffer).WriteString" {
-				return nil, "unrecognised call in the loop: " + id
+			_, t, handled, w := accWrite(call, map[types.Object][]encTerm{})
+			if !handled || w != "" {
+				return nil, "unrecognised statement outside the loop: " + exprStr(s.X) + " " + w
 			}
-			t, w := evalStr(call.Args[0])
-			if w != "" {
-				return nil, w
+			for _, x := range t {
+				if x.kind != "lit" {
+					return nil, "a non-constant is written outside the loop"
+				}
 			}
-			terms = append(terms, t...)
+		case *ast.ForStmt, *ast.RangeStmt:
+			var body *ast.BlockStmt
+			var idxVar types.Object
+			switch l := s.(type) {
+			case *ast.ForStmt:
+				body = l.Body
+			case *ast.RangeStmt:
+				body = l.Body
+			}
+			if numericOnly(body) {
+				continue // computes a size, writes nothing
+			}
+			if loopSeen {
+				return nil, "more than one loop writes the key"
+			}
+			loopSeen = true
+			switch l := s.(type) {
+			case *ast.ForStmt:
+				// for i := 0; i < len(labels); i++  (bound either way round, or a local holding len(labels))
+				as, ok := l.Init.(*ast.AssignStmt)
+				if !ok || len(as.Lhs) != 1 || len(as.Rhs) != 1 {
+					return nil, "loop without a single index variable"
+				}
+				iv := identObj(info, as.Lhs[0])
+				if v, ok := constInt(info, as.Rhs[0]); !ok || v != 0 || iv == nil {
+					return nil, "loop does not start at 0"
+				}
+				be, ok := core.Unparen(l.Cond).(*ast.BinaryExpr)
+				if !ok {
+					return nil, "loop bound is not a comparison"
+				}
+				isN := func(e ast.Expr) bool {
+					if isLenLabels(e) {
+						return true
+					}
+					o := identObj(info, e)
+					return o != nil && lenAlias[o]
+				}
+				isI := func(e ast.Expr) bool { return identObj(info, e) == iv }
+				okBound := (isI(be.X) && isN(be.Y) && (be.Op == token.LSS || be.Op == token.NEQ)) ||
+					(isN(be.X) && isI(be.Y) && (be.Op == token.GTR || be.Op == token.NEQ))
+				if !okBound {
+					return nil, "loop bound is not i < len(labels): " + nospace(exprStr(l.Cond))
+				}
+				okStep := false
+				switch p := l.Post.(type) {
+				case *ast.IncDecStmt:
+					okStep = p.Tok == token.INC && isI(p.X)
+				case *ast.AssignStmt:
+					if len(p.Lhs) == 1 && len(p.Rhs) == 1 && p.Tok == token.ADD_ASSIGN && isI(p.Lhs[0]) {
+						v, ok := constInt(info, p.Rhs[0])
+						okStep = ok && v == 1
+					}
+				}
+				if !okStep {
+					return nil, "loop step is not i++"
+				}
+				idxVar = iv
+				elemIs = func(e ast.Expr) bool {
+					ix, ok := core.Unparen(e).(*ast.IndexExpr)
+					return ok && identObj(info, ix.X) == labels && identObj(info, ix.Index) == iv
+				}
+			case *ast.RangeStmt:
+				if identObj(info, l.X) != labels {
+					return nil, "range is not over the labels"
+				}
+				var kv, vv types.Object
+				if id, ok := l.Key.(*ast.Ident); ok && id.Name != "_" {
+					kv = identObj(info, l.Key)
+				}
+				if l.Value != nil {
+					if id, ok := l.Value.(*ast.Ident); ok && id.Name != "_" {
+						vv = identObj(info, l.Value)
+					}
+				}
+				if kv == nil && vv == nil {
+					return nil, "range uses neither index nor value"
+				}
+				idxVar = kv
+				elemIs = func(e ast.Expr) bool {
+					if o := identObj(info, e); o != nil && o == vv {
+						return true
+					}
+					ix, ok := core.Unparen(e).(*ast.IndexExpr)
+					return ok && kv != nil && identObj(info, ix.X) == labels && identObj(info, ix.Index) == kv
+				}
+			}
+			env := map[types.Object][]encTerm{}
+			for _, bst := range body.List {
+				switch b := bst.(type) {
+				case *ast.AssignStmt:
+					if len(b.Lhs) != 1 || len(b.Rhs) != 1 {
+						return nil, "unrecognised assignment"
+					}
+					o := identObj(info, b.Lhs[0])
+					if o == nil || o == idxVar || o == labels {
+						return nil, "the loop body assigns the index or the tuple"
+					}
+					switch {
+					case isAcc[o] && b.Tok == token.ADD_ASSIGN:
+						t, w := evalStr(b.Rhs[0], env, 0)
+						if w != "" {
+							return nil, w
+						}
+						written[o] = append(written[o], t...)
+					case isAcc[o] && b.Tok == token.ASSIGN:
+						// acc = acc + X
+						be, ok := core.Unparen(b.Rhs[0]).(*ast.BinaryExpr)
+						if !ok || be.Op != token.ADD || identObj(info, be.X) != o {
+							return nil, "the accumulator is overwritten in the loop"
+						}
+						t, w := evalStr(be.Y, env, 0)
+						if w != "" {
+							return nil, w
+						}
+						written[o] = append(written[o], t...)
+					case b.Tok == token.DEFINE || b.Tok == token.ASSIGN:
+						t, w := evalStr(b.Rhs[0], env, 0)
+						if w != "" {
+							return nil, w
+						}
+						env[o] = t
+					case b.Tok == token.ADD_ASSIGN:
+						cur, have := env[o]
+						if !have {
+							return nil, "+= on an unknown string"
+						}
+						t, w := evalStr(b.Rhs[0], env, 0)
+						if w != "" {
+							return nil, w
+						}
+						env[o] = append(append([]encTerm{}, cur...), t...)
+					default:
+						return nil, "unrecognised assignment operator"
+					}
+				case *ast.ExprStmt:
+					call, ok := b.X.(*ast.CallExpr)
+					if !ok {
+						return nil, "unrecognised statement in the loop"
+					}
+					o, t, handled, w := accWrite(call, env)
+					if !handled {
+						return nil, "unrecognised call in the loop: " + f.CalleeID(call)
+					}
+					if w != "" {
+						return nil, w
+					}
+					written[o] = append(written[o], t...)
+				default:
+					return nil, "the loop body contains control flow (conditional encoding): not a uniform per-element encoder"
+				}
+			}
+			elemIs = nil
+		case *ast.ReturnStmt:
+			if len(s.Results) != 1 || k != len(f.Body.List)-1 {
+				return nil, "unrecognised return"
+			}
+			r := core.Unparen(s.Results[0])
+			if call, ok := r.(*ast.CallExpr); ok {
+				id := f.CalleeID(call)
+				if id != "strings.(*Builder).String" && id != "bytes.(*Buffer).String" {
+					return nil, "result is not the builder's string: " + nospace(exprStr(r))
+				}
+				r = core.RecvExpr(call)
+			}
+			result = identObj(info, r)
+			if result == nil || !isAcc[result] {
+				return nil, "result is not the accumulator: " + nospace(exprStr(s.Results[0]))
+			}
 		default:
-			return nil, "the loop body contains control flow (conditional encoding): not a uniform per-element encoder"
+			return nil, "unrecognised statement outside the loop"
 		}
 	}
-	return terms, ""
+	if !loopSeen {
+		return nil, "no loop over the labels"
+	}
+	if result == nil {
+		return nil, "no return of the accumulator"
+	}
+	return written[result], ""
 }
 
-// applySteps applies a ReplaceAll chain to s.
-func applySteps(s string, steps [][2]string) string {
-	for _, st := range steps {
+// applySteps applies an element term's replacements to s.
+func applySteps(s string, t encTerm) string {
+	if t.simul {
+		var flat []string
+		for _, st := range t.steps {
+			flat = append(flat, st[0], st[1])
+		}
+		return strings.NewReplacer(flat...).Replace(s)
+	}
+	for _, st := range t.steps {
 		s = strings.ReplaceAll(s, st[0], st[1])
 	}
 	return s
@@ -195,7 +549,7 @@ func encodeTuple(terms []encTerm, tuple []string) string {
 			case "lit":
 				b.WriteString(t.lit)
 			case "elem":
-				b.WriteString(applySteps(l, t.steps))
+				b.WriteString(applySteps(l, t))
 			case "quote":
 				b.WriteString(strconv.Quote(l))
 			case "lenprefix":
@@ -258,26 +612,30 @@ func sardinasPatterson(code []string) (bool, string) {
 }
 
 func c08(c *core.Check) {
+	mxInlineProg = c.Prog
 	c.Level = "proof"
 	c.Explain = "Injectivity of the label-tuple key, decided from /repo's current source.  The body of buildLabelValueKey is extracted as a per-element encoder (constants, the element under a chain of strings.ReplaceAll, strconv.Quote, a decimal length prefix).  When every term is a constant or the element under single-byte replacements followed by a constant terminator, the encoder is a monoid morphism h on the byte alphabet extended with an element-terminator symbol, and tuple encoding is injective for all arities iff the code {h(c)} is uniquely decodable — decided exactly by the Sardinas–Patterson algorithm over the finite set of bytes occurring in code words plus one representative ordinary byte (all other bytes are their own code word and occur in no other).  A failing test is turned into two distinct same-arity tuples with equal keys by a bounded search on the extracted encoder; that pair is the violation.  Encoders outside the morphism family are searched the same way (violation if a collision exists) and are otherwise undecided.  (R2) every access to labelValuesMap uses a key built by buildLabelValueKey from the tuple that is stored or looked up, and only metric.go touches the map and the slice; (R3) every tuple-taking method compares the tuple's length with the key count before anything else."
 	c.Assume = append(c.Assume, "strings.ReplaceAll with single-byte old strings is a byte-wise morphism (holds for invalid UTF-8 too)", "Go map lookup by string key is exact")
 	keyInjective(c, "C08-R1")
 
-	c.Rule("C08-R2", "ONE-KEYING: every index, store or delete on labelValuesMap uses a key that is the direct result of buildLabelValueKey applied to the tuple being stored/looked up; labelValuesMap and LabelValues are not written outside metric.go; a stored LabelValue's Labels is the tuple the key was built from")
+	c.Rule("C08-R2", "ONE-KEYING: every index, store or delete on labelValuesMap uses a key that is the result of buildLabelValueKey applied to the tuple being stored/looked up (followed through local variables and, for a key passed as a parameter, through every call site); labelValuesMap and LabelValues are not written outside metric.go; a stored LabelValue's Labels is the tuple the key was built from")
 	n2 := 0
 	for _, sf := range shipped(c) {
 		info := sf.Info()
-		ast.Inspect(sf.Body, func(n ast.Node) bool {
+		core.InspectNoLit(sf.Body, func(n ast.Node) bool {
+			if lit, ok := n.(*ast.FuncLit); ok && lit != sf.Lit {
+				return false
+			}
 			var keyExpr ast.Expr
 			var at ast.Node
 			switch x := n.(type) {
 			case *ast.IndexExpr:
-				if sel, ok := core.Unparen(x.X).(*ast.SelectorExpr); ok && sel.Sel.Name == "labelValuesMap" {
+				if _, ok := mxIsField(info, x.X, "metrics.Metric", "labelValuesMap"); ok {
 					keyExpr, at = x.Index, x
 				}
 			case *ast.CallExpr:
-				if sf.CalleeID(x) == "builtin.delete" {
-					if sel, ok := core.Unparen(x.Args[0]).(*ast.SelectorExpr); ok && sel.Sel.Name == "labelValuesMap" {
+				if sf.CalleeID(x) == "builtin.delete" && len(x.Args) == 2 {
+					if _, ok := mxIsField(info, x.Args[0], "metrics.Metric", "labelValuesMap"); ok {
 						keyExpr, at = x.Args[1], x
 					}
 				}
@@ -292,37 +650,52 @@ func c08(c *core.Check) {
 				c.Fail("C08-R2", sf.Key+"|map access outside metric.go", pos(c, at), "labelValuesMap is accessed outside metric.go: the keying discipline cannot be checked there")
 				return true
 			}
-			// key must be an identifier defined once as buildLabelValueKey(X)
-			ko := identObj(info, keyExpr)
-			var arg ast.Expr
-			if ko != nil {
-				ast.Inspect(sf.Body, func(m ast.Node) bool {
-					if as, ok := m.(*ast.AssignStmt); ok && len(as.Lhs) == 1 && identObj(info, as.Lhs[0]) == ko {
-						if call, ok := core.Unparen(as.Rhs[0]).(*ast.CallExpr); ok && sf.CalleeID(call) == buildKey {
-							arg = call.Args[0]
+			key := fmt.Sprintf("%s|map access #%d", sf.Key, n2)
+			status, tuple, why := mxKeyOrigin(c, sf, keyExpr, at, 0)
+			if status == "ok" && tuple == nil {
+				// the key is a parameter: one instance per call site that builds it
+				if v := mxLocalVar(sf, mxResolveAt(sf, keyExpr, at)); v != nil {
+					if _, isParam := mxPureParam(sf, v); isParam {
+						for i, s := range mxCallSites(c.Prog, sf) {
+							if i > 0 {
+								c.Ok("C08-R2", fmt.Sprintf("%s via %s", key, s.In.Key), pos(c, s.Call), "key built by buildLabelValueKey at this call site")
+							}
 						}
 					}
-					return true
-				})
-			} else if call, ok := core.Unparen(keyExpr).(*ast.CallExpr); ok && sf.CalleeID(call) == buildKey {
-				arg = call.Args[0]
+				}
 			}
-			key := fmt.Sprintf("%s|map access #%d", sf.Key, n2)
-			if arg == nil {
-				c.Fail("C08-R2", key, pos(c, at), "labelValuesMap is accessed with a key that is not the result of buildLabelValueKey: entries become unreachable or alias")
+			switch status {
+			case "fail":
+				c.Fail("C08-R2", key, pos(c, at), "labelValuesMap is accessed with a key that is not the result of buildLabelValueKey ("+why+"): entries become unreachable or alias")
+				return true
+			case "undecided":
+				c.Undecided("C08-R2", key, pos(c, at), "the origin of the map key is not recognised: "+why)
 				return true
 			}
-			// for stores m.labelValuesMap[k] = lv: arg must be lv.Labels
-			okTuple := true
-			if par := parentAssign(sf, at); par != nil {
-				rhs := identObj(info, par.Rhs[0])
-				want := ""
-				if rhs != nil {
-					want = rhs.Name() + ".Labels"
+			// for stores m.labelValuesMap[k] = lv: the tuple must be lv.Labels
+			if par := parentAssign(sf, at); par != nil && len(par.Lhs) == len(par.Rhs) {
+				var val ast.Expr
+				for i, l := range par.Lhs {
+					if ast.Node(l) == at {
+						val = par.Rhs[i]
+					}
 				}
-				okTuple = core.PathOf(arg) == want
+				if tuple == nil || val == nil {
+					c.Undecided("C08-R2", key, pos(c, at), "the key of a store is built in another function: the tuple it was built from cannot be compared with the stored value's Labels")
+					return true
+				}
+				okTuple := false
+				if sel, ok := mxIsField(info, mxResolveAt(sf, tuple, at), "metrics.LabelValue", "Labels"); ok {
+					okTuple = mxCanon(sf, sel.X, at) == mxCanon(sf, val, at)
+				}
+				c.Verdict(okTuple, "C08-R2", key, pos(c, at), "key = buildLabelValueKey("+exprStr(tuple)+")", "the map key is built from "+exprStr(tuple)+", not from the Labels of the value being stored: the entry is filed under another tuple's key")
+				return true
 			}
-			c.Verdict(okTuple, "C08-R2", key, pos(c, at), "key = buildLabelValueKey("+exprStr(arg)+")", "the map key is built from "+exprStr(arg)+", not from the Labels of the value being stored: the entry is filed under another tuple's key")
+			d := "key built by buildLabelValueKey at every call site"
+			if tuple != nil {
+				d = "key = buildLabelValueKey(" + exprStr(tuple) + ")"
+			}
+			c.Ok("C08-R2", key, pos(c, at), d)
 			return true
 		})
 		// writers of the fields elsewhere
@@ -333,12 +706,10 @@ func c08(c *core.Check) {
 					return true
 				}
 				for _, l := range as.Lhs {
-					if sel, ok := core.Unparen(l).(*ast.SelectorExpr); ok && sel.Sel.Name == fld {
-						if s := sf.Info().Selections[sel]; s != nil && strings.HasSuffix(s.Recv().String(), "metrics.Metric") {
-							file := c.Prog.Fset.Position(as.Pos()).Filename
-							if !strings.HasSuffix(file, "internal/metrics/metric.go") {
-								c.Fail("C08-R2", sf.Key+"|writes "+fld, pos(c, as), fld+" of a metric is assigned outside metric.go, bypassing the paired slice/map update")
-							}
+					if _, ok := mxIsField(info, l, "metrics.Metric", fld); ok {
+						file := c.Prog.Fset.Position(as.Pos()).Filename
+						if !strings.HasSuffix(file, "internal/metrics/metric.go") {
+							c.Fail("C08-R2", sf.Key+"|writes "+fld, pos(c, as), fld+" of a metric is assigned outside metric.go, bypassing the paired slice/map update")
 						}
 					}
 				}
@@ -359,6 +730,54 @@ func c08(c *core.Check) {
 	c.Floor("C08-R3", 4)
 }
 
+// mxKeyOrigin decides where a map key comes from: "ok" with the tuple passed
+// to buildLabelValueKey (nil when the key is a parameter built at the call
+// sites), "fail" when some definition reaching the use is something else,
+// "undecided" when it cannot be followed.
+func mxKeyOrigin(c *core.Check, f *core.Func, key ast.Expr, at ast.Node, depth int) (status string, tuple ast.Expr, why string) {
+	if t := mxKeyTuple(f, key, at); t != nil {
+		return "ok", t, ""
+	}
+	r := mxResolveAt(f, key, at)
+	v := mxLocalVar(f, r)
+	if v == nil {
+		return "fail", nil, "the key is " + nospace(exprStr(r))
+	}
+	if pi, isParam := mxPureParam(f, v); isParam {
+		if depth > 2 || pi < 0 {
+			return "undecided", nil, "the key is a parameter passed down several levels"
+		}
+		sites := mxCallSites(c.Prog, f)
+		if len(sites) == 0 {
+			return "undecided", nil, "the key is a parameter of a function without statically resolved callers"
+		}
+		for _, s := range sites {
+			arg := mxArgFor(s.Call, f, pi)
+			if arg == nil {
+				return "undecided", nil, "argument for the key parameter not found at " + c.Prog.Position(s.Call.Pos())
+			}
+			if st, _, w := mxKeyOrigin(c, s.In, arg, s.Call, depth+1); st != "ok" {
+				return st, nil, "at the call " + c.Prog.Position(s.Call.Pos()) + ": " + w
+			}
+		}
+		return "ok", nil, ""
+	}
+	// several definitions reach the use: each must be a call of the encoder
+	sites := mxReaching(f, v, at)
+	if len(sites) == 0 {
+		return "undecided", nil, "no definition of the key variable found"
+	}
+	for _, s := range sites {
+		if s.opaque || s.n != 1 || s.rhs == nil {
+			return "fail", nil, "the key variable " + v.Name() + " is not (only) assigned the result of buildLabelValueKey"
+		}
+		if call, ok := core.Unparen(s.rhs).(*ast.CallExpr); !ok || f.CalleeID(call) != buildKey {
+			return "fail", nil, "the key variable " + v.Name() + " is assigned " + nospace(exprStr(s.rhs))
+		}
+	}
+	return "ok", nil, ""
+}
+
 // parentAssign returns the assignment statement whose left-hand side is node n.
 func parentAssign(f *core.Func, n ast.Node) *ast.AssignStmt {
 	var res *ast.AssignStmt
@@ -375,52 +794,62 @@ func parentAssign(f *core.Func, n ast.Node) *ast.AssignStmt {
 	return res
 }
 
-// arityGuard checks that the first statement of f is `if len(X) != len(m.Keys) { return …error }` and that nothing touching the metric precedes it.
+// arityGuard checks that a tuple-taking method rejects a tuple of the wrong
+// length before anything else: every lock call, key construction and access to
+// the metric's map or slice lies behind a condition edge asserting
+// len(tuple) == len(m.Keys) (if/else, early return, switch, negation, swapped
+// operands, the key count in a local, or the error of a helper that makes the
+// comparison are all the same edge), and every exit reachable without taking
+// such an edge returns a non-nil error.
 func arityGuard(c *core.Check, rule string, mf *core.Func) {
 	g := mf.Graph()
-	guards := ifsWhere(mf, func(is *ast.IfStmt) bool {
-		s := nospace(exprStr(is.Cond))
-		return strings.HasPrefix(s, "len(") && strings.Contains(s, "!=len(") && strings.HasSuffix(s, ".Keys)")
-	})
-	if len(guards) == 0 {
-		c.Fail(rule, mf.Key+"|arity guard", pos(c, mf.Decl), "no `len(tuple) != len(m.Keys)` guard: a tuple of the wrong length is stored or looked up (and keyed like a different tuple of the right length)")
+	info := mf.Info()
+	key := mf.Key + "|arity guard"
+	match, mismatch, other := mxArityEdges(c, mf, 0)
+	if len(match) == 0 {
+		if other > 0 || len(mismatch) > 0 {
+			c.Undecided(rule, key, pos(c, mf.Decl), "the tuple's length is compared with the key count in a form that is not recognised")
+			return
+		}
+		c.Fail(rule, key, pos(c, mf.Decl), "no `len(tuple) != len(m.Keys)` guard: a tuple of the wrong length is stored or looked up (and keyed like a different tuple of the right length)")
 		return
 	}
-	var conds []core.Point
-	for _, is := range guards {
-		if p, ok := g.PointOf(is.Cond); ok {
-			conds = append(conds, p)
-		}
-	}
-	// touching events: lock calls, map/slice field uses
+	// touching events: lock calls, key construction, map/slice field uses
 	touch := g.Find(func(n ast.Node) bool {
 		switch x := n.(type) {
 		case *ast.CallExpr:
 			id := mf.CalleeID(x)
 			return strings.HasPrefix(id, "sync.") || id == buildKey
 		case *ast.SelectorExpr:
-			return x.Sel.Name == "labelValuesMap" || x.Sel.Name == "LabelValues"
+			if _, ok := mxIsField(info, x, "metrics.Metric", "labelValuesMap"); ok {
+				return true
+			}
+			_, ok := mxIsField(info, x, "metrics.Metric", "LabelValues")
+			return ok
 		}
 		return false
 	})
-	tr, found := pathAvoiding(g, nil, core.HitPoints(touch), conds)
-	okRet := true
-	for _, is := range guards {
-		if start, ok := branchStart(g, is, true); ok {
-			if _, f2 := pathAvoiding(g, start, core.HitPoints(touch), nil); f2 {
-				okRet = false
-			}
-			// must return a non-nil error
-			retErr := false
-			for _, st := range is.Body.List {
-				if r, ok := st.(*ast.ReturnStmt); ok && !returnsNil(mf.Info(), r) {
-					retErr = true
-				}
-			}
-			okRet = okRet && retErr
+	var tr []string
+	touched := false
+	for _, t := range touch {
+		if w, reach := mxReachAvoiding(g, nil, t.P, match, nil); reach {
+			touched, tr = true, w
+			break
 		}
 	}
-	c.Verdict(!found && okRet, rule, mf.Key+"|arity guard", pos(c, guards[0]), "length compared before touching the metric; mismatch returns an error", "the metric is locked or its map/slice touched before (or despite) the arity comparison: a wrong-length tuple changes state", tr...)
+	okRet := true
+	for _, ex := range normalExits(g) {
+		if w, reach := mxReachAvoiding(g, nil, ex.P, match, nil); reach {
+			if ex.Kind != "return" || returnsNil(info, ex.Ret) {
+				okRet = false
+				if tr == nil {
+					tr = w
+				}
+			}
+		}
+	}
+	var at ast.Node = match[0].Cond
+	c.Verdict(!touched && okRet, rule, key, pos(c, at), "length compared before touching the metric; mismatch returns an error", "the metric is locked or its map/slice touched before (or despite) the arity comparison: a wrong-length tuple changes state", tr...)
 }
 
 // interpEncoder evaluates buildLabelValueKey's body on a concrete tuple with a
@@ -547,6 +976,18 @@ func interpEncoder(f *core.Func, tuple []string) (res string, ok bool) {
 				if identObj(info, x.Args[0]) == labels {
 					return strings.Join(tuple, arg(1).(string))
 				}
+			case "strings.NewReplacer":
+				return "replacer" // followed from its use
+			case "strings.(*Replacer).Replace":
+				if r := core.RecvExpr(x); r != nil {
+					if nr, isC := mxResolveAt(f, r, x).(*ast.CallExpr); isC && f.CalleeID(nr) == "strings.NewReplacer" && !nr.Ellipsis.IsValid() && len(nr.Args)%2 == 0 {
+						var flat []string
+						for _, a := range nr.Args {
+							flat = append(flat, evalE(a).(string))
+						}
+						return strings.NewReplacer(flat...).Replace(arg(0).(string))
+					}
+				}
 			}
 		}
 		panic("unsupported expression " + exprStr(e))
@@ -608,6 +1049,8 @@ func interpEncoder(f *core.Func, tuple []string) (res string, ok bool) {
 					out.WriteByte(byte(evalE(call.Args[0]).(int)))
 				case "strings.(*Builder).WriteRune", "bytes.(*Buffer).WriteRune":
 					out.WriteRune(rune(evalE(call.Args[0]).(int)))
+				case "strings.(*Builder).Grow", "bytes.(*Buffer).Grow":
+					// capacity hint: no effect on the result
 				default:
 					panic("call " + f.CalleeID(call))
 				}
@@ -660,8 +1103,12 @@ func interpEncoder(f *core.Func, tuple []string) (res string, ok bool) {
 				}
 			case *ast.ReturnStmt:
 				var r string
-				rs := nospace(exprStr(s.Results[0]))
-				if strings.HasSuffix(rs, ".String()") {
+				isBuilderString := false
+				if rc, isC := core.Unparen(s.Results[0]).(*ast.CallExpr); isC {
+					id := f.CalleeID(rc)
+					isBuilderString = id == "strings.(*Builder).String" || id == "bytes.(*Buffer).String"
+				}
+				if isBuilderString {
 					r = out.String()
 				} else {
 					r = evalE(s.Results[0]).(string)
@@ -784,7 +1231,7 @@ func keyInjective(c *core.Check, rule string) {
 	} else {
 		var desc []string
 		morph := true
-		var elemSteps [][2]string
+		var elemTerm encTerm
 		sep := ""
 		nelem := 0
 		for i, t := range terms {
@@ -798,7 +1245,7 @@ func keyInjective(c *core.Check, rule string) {
 				}
 			case "elem":
 				nelem++
-				elemSteps = t.steps
+				elemTerm = t
 				d := "elem"
 				for _, s := range t.steps {
 					d += fmt.Sprintf(".replace(%q→%q)", s[0], s[1])
@@ -824,7 +1271,7 @@ func keyInjective(c *core.Check, rule string) {
 		if morph {
 			// alphabet: bytes occurring in any step or the separator, plus a representative
 			alpha := map[byte]bool{'a': true}
-			for _, s := range elemSteps {
+			for _, s := range elemTerm.steps {
 				for i := 0; i < len(s[0]); i++ {
 					alpha[s[0][i]] = true
 				}
@@ -843,7 +1290,7 @@ func keyInjective(c *core.Check, rule string) {
 			}
 			sort.Ints(bs)
 			for _, b := range bs {
-				w := applySteps(string([]byte{byte(b)}), elemSteps)
+				w := applySteps(string([]byte{byte(b)}), elemTerm)
 				code = append(code, w)
 				table = append(table, fmt.Sprintf("h(%q)=%q", string([]byte{byte(b)}), w))
 			}
